@@ -727,7 +727,7 @@ def c15_lemmas():
             return
         w1, v1 = state(sp)
         sets = [g for g in ctx.__dict__.get('ghost_wave_sets', []) if g['self'] is sp]
-        ctx.oblige('C15::Spectrum.resample.stored_grid_passed_the_validation', bool(sets) and sets[-1]['value'] is w1,
+        ctx.oblige('C15::Spectrum.resample.stored_grid_passed_the_validation', bool(sets) and sets[-1]['value'] is w1, 'structure',
                    info={'validated_grids': len(sets)})
         ctx.oblige('C15::Spectrum.resample.one_value_per_wavelength',
                    z3.And(S.z(S.eq(w1.shape[0], m)), S.z(S.eq(A.as_array(ctx, v1).shape[0], m))))
@@ -753,7 +753,7 @@ def c15_lemmas():
         # "always leaves a strictly increasing grid": the grid now stored is one the validating setter accepted
         # (it accepts exactly the positive strictly increasing grids: Spectrum.wave.setter#body)
         sets = [g for g in ctx.__dict__.get('ghost_wave_sets', []) if g['self'] is a]
-        ctx.oblige('C15::Spectrum.append.stored_grid_passed_the_validation', bool(sets) and sets[-1]['value'] is w1,
+        ctx.oblige('C15::Spectrum.append.stored_grid_passed_the_validation', bool(sets) and sets[-1]['value'] is w1, 'structure',
                    info={'validated_grids': len(sets)})
         ctx.oblige('C15::Spectrum.append.one_value_per_wavelength',
                    z3.And(S.z(S.eq(w1.shape[0], S.mul(2, n))), S.z(S.eq(v1.shape[0], S.mul(2, n)))))
